@@ -341,11 +341,31 @@ tokio::task_local! {
 /// Global wait-for graph.
 /// Key: waiting actor's ID, Value: target actor's Identity.
 #[cfg(feature = "deadlock-detection")]
-static WAIT_FOR: OnceLock<Mutex<HashMap<u64, Identity>>> = OnceLock::new();
+static WAIT_FOR: OnceLock<Mutex<HashMap<u64, (Identity, u64)>>> = OnceLock::new();
 
 #[cfg(feature = "deadlock-detection")]
-pub(crate) fn wait_for_graph() -> &'static Mutex<HashMap<u64, Identity>> {
+pub(crate) fn wait_for_graph() -> &'static Mutex<HashMap<u64, (Identity, u64)>> {
     WAIT_FOR.get_or_init(|| Mutex::new(HashMap::new()))
+}
+
+/// Allocates the token that ties a wait-for edge to the one `ask` that created it.
+#[cfg(feature = "deadlock-detection")]
+pub(crate) fn next_ask_token() -> u64 {
+    static ASK_TOKENS: AtomicU64 = AtomicU64::new(1);
+    ASK_TOKENS.fetch_add(1, std::sync::atomic::Ordering::Relaxed)
+}
+
+/// Removes the edge of an `ask` that is about to be answered, so that an asker which has its
+/// reply but has not been polled yet no longer counts as waiting.
+#[cfg(feature = "deadlock-detection")]
+pub(crate) fn ask_answered(edge: Option<(u64, u64)>) {
+    if let Some((caller, token)) = edge {
+        if let Ok(mut graph) = wait_for_graph().lock() {
+            if graph.get(&caller).map(|(_, t)| *t) == Some(token) {
+                graph.remove(&caller);
+            }
+        }
+    }
 }
 
 #[cfg(feature = "deadlock-detection")]
@@ -364,12 +384,12 @@ impl Drop for WaitForGuard {
 /// Self-ask (caller == callee) is checked by the caller before invoking this function,
 /// so this only handles cycles of 2+ hops.
 #[cfg(feature = "deadlock-detection")]
-pub(crate) fn has_path(graph: &HashMap<u64, Identity>, from: u64, to: u64) -> bool {
+pub(crate) fn has_path(graph: &HashMap<u64, (Identity, u64)>, from: u64, to: u64) -> bool {
     let mut current = from;
     let max_steps = graph.len();
     for _ in 0..max_steps {
         match graph.get(&current) {
-            Some(identity) => {
+            Some((identity, _)) => {
                 if identity.id == to {
                     return true;
                 }
@@ -384,7 +404,7 @@ pub(crate) fn has_path(graph: &HashMap<u64, Identity>, from: u64, to: u64) -> bo
 /// Format the cycle path for panic messages.
 #[cfg(feature = "deadlock-detection")]
 pub(crate) fn format_cycle_path(
-    graph: &HashMap<u64, Identity>,
+    graph: &HashMap<u64, (Identity, u64)>,
     caller: Identity,
     callee: Identity,
 ) -> String {
@@ -396,7 +416,7 @@ pub(crate) fn format_cycle_path(
     let max_steps = graph.len();
     for _ in 0..max_steps {
         match graph.get(&current) {
-            Some(identity) => {
+            Some((identity, _)) => {
                 path.push(identity.to_string());
                 if identity.id == caller.id {
                     break;
@@ -429,6 +449,7 @@ where
         actor: &mut A,
         actor_ref: ActorRef<A>,
         reply_channel: Option<oneshot::Sender<Box<dyn std::any::Any + Send>>>,
+        #[cfg(feature = "deadlock-detection")] wait_for_edge: Option<(u64, u64)>,
     ) -> BoxFuture<'_, ()>;
 }
 
@@ -449,10 +470,13 @@ where
         actor: &mut A,
         actor_ref: ActorRef<A>,
         reply_channel: Option<oneshot::Sender<Box<dyn std::any::Any + Send>>>,
+        #[cfg(feature = "deadlock-detection")] wait_for_edge: Option<(u64, u64)>,
     ) -> BoxFuture<'_, ()> {
         async move {
             let result = Message::handle(actor, *self, &actor_ref).await;
             if let Some(channel) = reply_channel {
+                #[cfg(feature = "deadlock-detection")]
+                ask_answered(wait_for_edge);
                 match channel.send(Box::new(result)) {
                     Ok(_) => {
                         #[cfg(feature = "tracing")]
@@ -494,6 +518,9 @@ where
         reply_channel: Option<oneshot::Sender<Box<dyn std::any::Any + Send>>>,
         /// The actor reference for potential self-messaging or context.
         actor_ref: ActorRef<T>,
+        /// Wait-for edge (asking actor, ask token) to clear when the reply is sent.
+        #[cfg(feature = "deadlock-detection")]
+        wait_for_edge: Option<(u64, u64)>,
     },
     /// A signal for the actor to stop gracefully after processing existing messages in its mailbox.
     ///
